@@ -403,6 +403,56 @@ def jobs(tier):
     return out
 
 
+# ---------------------------------------------------------------------------------- machine integers (native, not a solver verdict)
+
+def _machine_int_cases():
+    from skchange.anomaly_scores import L2Saving, LocalAnomalyScore, Saving
+    from skchange.change_scores import CUSUM, ChangeScore
+    from skchange.costs import GaussianVarCost, L2Cost
+    n = 48
+    c2 = np.array([[0, n], [3, 40], [10, 45]])
+    c3 = np.array([[0, 20, n], [2, 35, 47], [5, 9, 44]])
+    c4 = np.array([[0, 10, 30, n], [1, 20, 25, 46]])
+    return n, [("L2Cost", L2Cost, c2), ("GaussianVarCost", GaussianVarCost, c2), ("CUSUM", CUSUM, c3), ("L2Saving", L2Saving, c2),
+               ("ChangeScore(L2Cost)", lambda: ChangeScore(L2Cost()), c3), ("ChangeScore(GaussianVarCost)", lambda: ChangeScore(GaussianVarCost()), c3),
+               ("Saving(L2Cost(0))", lambda: Saving(L2Cost(0.0)), c2), ("Saving(L2Cost(1500.5))", lambda: Saving(L2Cost(1500.5)), c2),
+               ("LocalAnomalyScore(L2Cost)", lambda: LocalAnomalyScore(L2Cost()), c4)]
+
+
+def _machine_int_run(dt):
+    """scores on count-like data (values around 1500, 48 rows, 2 columns) held in a narrow integer dtype vs the same values as float64"""
+    n, cases = _machine_int_cases()
+    base = np.random.default_rng(2024).integers(1200, 1800, size=(n, 2))
+    bad = []
+    with proxy.native():
+        for name, mk, cuts in cases:
+            try:
+                a = mk().fit(base.astype(dt)).evaluate(cuts)
+                b = mk().fit(base.astype(float)).evaluate(cuts)
+                if a.shape != b.shape or not np.allclose(a, b, rtol=1e-9, atol=1e-6):
+                    bad.append(f"{name} on {dt} data: {np.asarray(a)[0].tolist()} but on the same values as float64: {np.asarray(b)[0].tolist()}")
+            except Exception as ex:
+                bad.append(f"{name} on {dt} data raised {type(ex).__name__}: {ex}"[:200])
+    return bad
+
+
+def extra(tier, seed):
+    """The symbolic runs model integers as mathematical integers.  What a *machine* integer dtype adds (wrap-around of
+    sums and squares in work arrays that inherit the data's dtype) is checked natively here, on count-like data of
+    moderate size: the scores must be those of the same values held as float64 (seed C06-d).  Reported separately in
+    the evidence as a native differential run, not as a solver verdict."""
+    acc = Acc()
+    # int32 / int64 only: with 16-bit data the pinned tree already wraps in `X**2` inside L2Cost / GaussianVarCost._fit
+    # (values ~1500); that is outside every property's quantifier (C01: floats, C11: int64 / float64) and is recorded in
+    # DESIGN.md as an observation, not claimed here
+    for dt in ("int32", "int64"):
+        bad = _machine_int_run(dt)
+        acc.concrete("machine_integer_data.same_scores_as_float64", not bad, dict(part="machine_ints", dtype=dt, first=(bad or [""])[0][:300]))
+        if not bad:
+            acc.inc("translator_ok")
+    return acc
+
+
 def _replay_builtin(info, env, Xf, ob, key):
     """Native re-run of the same batches; the reference is the cost's own evaluate on the same data.  When the
     model's point does not separate the two (z3's model of the uninterpreted log), a few deterministic data /
@@ -481,6 +531,9 @@ def replay(cx):
     from skchange.anomaly_scores import L2Saving, LocalAnomalyScore, Saving
     from skchange.change_scores import CUSUM, ChangeScore
     from skchange.costs import GaussianCovCost, GaussianVarCost, L2Cost
+    if info.get("part") == "machine_ints":
+        badm = _machine_int_run(info["dtype"])
+        return dict(reproduced=bool(badm), key=f"machine_ints|{info['dtype']}", what="; ".join(badm[:2])[:700])
     if info.get("part") == "vacuity":
         return dict(reproduced=None, key=key, what="vacuity twin failed: the Gaussian inequality harness proves its claim without the lemmas")
     if info.get("part") == "adapters":
